@@ -40,6 +40,7 @@ type seqShared struct {
 type seqExec struct {
 	*seqShared
 	idx int
+	t   *Tracker
 	a   *memory.Allocator
 	m   *mapped
 	bad string // harness problem
@@ -154,7 +155,7 @@ func (e *seqExec) prelude(t *Tracker, o *obsState, full bool) *Fail {
 			}
 			o.onFree(s)
 			t.Ops++
-			t.A.Free(s.P)
+			t.A.Free(s.P())
 		}
 		t.BG = t.BG[:0]
 		return t.SealBG()
@@ -203,7 +204,11 @@ func needFill(hist []int8) []bool {
 func (e *seqExec) run(hist []int8, every bool, verbose bool) (out runOut) {
 	a := e.newAlloc()
 	e.m = newMapped(e.lay, a.MaxSharedSize)
-	t := NewTracker(a, 1)
+	if e.t == nil {
+		e.t = NewTracker(a, 1)
+	}
+	t := e.t
+	t.Reset(a)
 	t.Touched = e.m.touched
 	o := newObs(e.lay, a.MaxSharedSize)
 	out.step = -1
@@ -455,6 +460,9 @@ func runSeq(u *Unit, res *UnitResult, cur *curFile) {
 	res.PerDepth = append(res.PerDepth, 1)
 	samples := 0
 	var stop atomic.Bool
+	// from here on executions run on the executor goroutines: they are part of the
+	// quiescent goroutine count (fresh mode waits for the refill goroutine to end)
+	sh.base = base + par
 	for d := 0; d < u.Depth && !stop.Load(); d++ {
 		var next, nextExtras []ext
 		type sigRec struct {
